@@ -970,6 +970,11 @@ func (e *Eval) emit(op code.Opcode, operands ...int) int {
 
 	if len(operands) == 1 {
 
+		// The argument must fit in 16 bits.
+		if operands[0] < 0 || operands[0] > 65535 {
+			e.overflow = true
+		}
+
 		// Make a buffer for the arg
 		b := make([]byte, 2)
 		binary.BigEndian.PutUint16(b, uint16(operands[0]))
@@ -1014,6 +1019,11 @@ func (e *Eval) changeOperand(opPos int, operand int) {
 	// change, and just update the argument-bytes
 	// in-place.
 	//
+
+	// The argument must fit in 16 bits.
+	if operand < 0 || operand > 65535 {
+		e.overflow = true
+	}
 
 	// Make a buffer for the arg, which we can
 	// use to split it into two bytes.
